@@ -123,6 +123,25 @@ func (w *world) verifyFunc(con *Contract, fn *ssa.Function, mode string, variant
 	// vacuity guard: the precondition must be satisfiable
 	x.obls = append(x.obls, &obligation{Name: con.Target + "/cover[requires-satisfiable]", Kind: "cover", Pc: st.pcStrings(), Goal: "false", Decls: len(x.decls)})
 	outs := x.run(st, fr, fn.Blocks[0], 0, nil)
+	// iterators: the returned function value is applied to a callback under contract (result-callback)
+	for name, spec := range con.Cbs {
+		if !strings.HasPrefix(name, "result:") {
+			continue
+		}
+		var applied []outcome
+		for _, o := range outs {
+			if o.panic || o.ret.fn == nil {
+				applied = append(applied, o)
+				continue
+			}
+			cbv := val{cb: &cbRef{con: con, spec: spec, fn: fn}}
+			for _, o2 := range x.callValue(o.st, fr, o.ret, []val{cbv}, nil, types.NewTuple()) {
+				o2.ret = o.ret
+				applied = append(applied, o2)
+			}
+		}
+		outs = applied
+	}
 	normal := 0
 	for _, o := range outs {
 		if o.panic {
